@@ -63,7 +63,7 @@ def run(ctx):
         nontrivial += c.get("nontrivial", 0)
     # vertical part: line box heights under vertical-align baseline / top / bottom (spec/LineHeight.tla)
     if thorough:
-        vres = ctx.tlc("LineHeight", None, workers=8, cfg_text=VCFG % (3, "INIT Init\nNEXT Next", ""), simulate="num=4000", depth=12, timeout=3000)
+        vres = ctx.tlc("LineHeight", None, workers=8, cfg_text=VCFG % (3, "INIT InitSample\nNEXT Next", ""), simulate="num=4000", depth=12, timeout=3000)
         vscn3, vcnt3, _ = ctx.scenario_lines(vres)
     vres = ctx.tlc("LineHeight", None, workers=8, cfg_text=VCFG % (2, "SPECIFICATION Spec", "PROPERTIES Terminates"), timeout=3000)
     vscn, vcnt, vfirst = ctx.scenario_lines(vres)
